@@ -19,6 +19,8 @@ def main():
         sys.exit(replay_file(a.replay))
     try:
         mod = importlib.import_module(f'props.{a.prop}')
+        if a.tier == 'thorough':
+            os.environ.setdefault('PYVC_MAX_PATHS', '12000')
         pr = mod.run(a.tier)
         # the evidence level is the level claimed in MANIFEST.json for this property
         try:
